@@ -796,18 +796,29 @@ func generateClauses(L *Loaded, root *packages.Package, cf *ContractFile) (strin
 			}
 			useSite := site
 			if cl.Kind == "callsite" {
-				ft := lookupTypeByShortName(root, cl.CallType)
-				if ft == nil {
-					return "", fmt.Errorf("verif_contracts.go:%d: callsite: unknown function type %q", cl.Line, cl.CallType)
-				}
-				fsig, ok := ft.Underlying().(*types.Signature)
-				if !ok {
-					return "", fmt.Errorf("verif_contracts.go:%d: callsite: %q is not a function type", cl.Line, cl.CallType)
-				}
 				cp := *site
-				cp.extra = map[string]types.Type{"callee": ft}
-				for k := 0; k < fsig.Params().Len(); k++ {
-					cp.extra[fmt.Sprintf("arg%d", k)] = fsig.Params().At(k).Type()
+				if ft := lookupTypeByShortName(root, cl.CallType); ft != nil {
+					fsig, ok := ft.Underlying().(*types.Signature)
+					if !ok {
+						return "", fmt.Errorf("verif_contracts.go:%d: callsite: %q is not a function type", cl.Line, cl.CallType)
+					}
+					cp.extra = map[string]types.Type{"callee": ft}
+					for k := 0; k < fsig.Params().Len(); k++ {
+						cp.extra[fmt.Sprintf("arg%d", k)] = fsig.Params().At(k).Type()
+					}
+				} else if cs, err := findFuncSite(root, cl.CallType); err == nil {
+					// a statically called function or method of the package: arg0 is the receiver
+					cp.extra = map[string]types.Type{}
+					k := 0
+					if cs.sig.Recv() != nil {
+						cp.extra["arg0"] = cs.sig.Recv().Type()
+						k = 1
+					}
+					for j := 0; j < cs.sig.Params().Len(); j++ {
+						cp.extra[fmt.Sprintf("arg%d", k+j)] = cs.sig.Params().At(j).Type()
+					}
+				} else {
+					return "", fmt.Errorf("verif_contracts.go:%d: callsite: unknown function type or function %q", cl.Line, cl.CallType)
 				}
 				useSite = &cp
 			}
